@@ -77,6 +77,12 @@ class World(object):
                             twin = type(link.cls.__name__, (object,), {"__module__": "__main__", "twin_marker": True})
                             self.cfg.classes.add(twin)
                     else:
+                        if rng.random() < 0.3:
+                            # the name was registered before, for an older generation of the class (a reloaded plug-in,
+                            # a long-lived Config): registering again replaces it
+                            old = type(link.cls.__name__, (object,), {"__module__": "__main__", "old_generation": True})
+                            self.cfg.classes.add(old)
+                            self.reregistered = getattr(self, "reregistered", 0) + 1
                         self.cfg.classes.add(link.cls)
         # RPC loop
         self.planned = collections.deque()
@@ -312,6 +318,7 @@ def run(ctx):
         world = World(rng, version)
         desc = json.dumps([s.describe() for s in world.shapes], sort_keys=True)
         ctx.count("class-sets")
+        ctx.count("local-classes-registered-over-an-older-registration", getattr(world, "reregistered", 0))
         ctx.count("classes-generated", sum(len(s.chain()) for s in world.shapes) + len(world.enums))
         if w == 0:
             ctx.sample({"classes": [s.describe() for s in world.shapes], "version": version})
